@@ -1,5 +1,6 @@
 import Driver.Thrift
 import Driver.Thrift2
+import Driver.Thrift3
 import Driver.Pb
 import Driver.Idl
 import Driver.Gen
@@ -18,7 +19,7 @@ def answerLine (docs : Driver.Gen.Docs) (line : String) : Driver.Gen.Docs × Str
       match Driver.Gen.answer docs items with
       | some r => r
       | none => (docs,
-      match [Driver.Thrift.answer, Driver.Thrift2.answer, Driver.Pb.answer, Driver.Idl.answer, Driver.Build.answer].findSome? (· items) with
+      match [Driver.Thrift.answer, Driver.Thrift2.answer, Driver.Thrift3.answer, Driver.Pb.answer, Driver.Idl.answer, Driver.Build.answer].findSome? (· items) with
       | some a => a
       | none => "bad-request")
 
